@@ -23,6 +23,10 @@ type VioReport struct {
 	Replay   string `json:"replay"`
 	Detail   string `json:"detail"`
 	Known    string `json:"known,omitempty"`
+	// Unverified: the replay file did not reproduce in a fresh process when it was written
+	// (the violation was observed in the worker process; it depends on something the simulator
+	// does not own, e.g. which pooled object the Go runtime hands out)
+	Unverified bool `json:"unverified,omitempty"`
 }
 
 func NewStats() *Stats {
